@@ -9,7 +9,7 @@ import re
 from . import common as C
 
 THEOREMS = ["ShipVerif.Pair.C03_agreement", "ShipVerif.Pair.C03_trusted_completes", "ShipVerif.Pair.C03_approved_completes_partial",
-            "ShipVerif.Pair.C03_untrusted_never_completes", "ShipVerif.Pair.C03_pending_kept", "ShipVerif.Pair.C03_setup_once_and_ids", "ShipVerif.Pair.C03_streams_bounded",
+            "ShipVerif.Pair.C03_untrusted_never_completes", "ShipVerif.Pair.C03_pending_kept", "ShipVerif.Pair.C03_cancel_final", "ShipVerif.Pair.C03_setup_once_and_ids", "ShipVerif.Pair.C03_streams_bounded",
             "ShipVerif.Pair.C03_approve_with_hello_under_way", "ShipVerif.Pair.PairCert.closed_ok", "ShipVerif.Pair.PX.dec_enc"]
 THEOREMS_ARB = ["ShipVerif.Pair.C03_agreement_one_premature_expiry", "ShipVerif.Pair.PairCertArb.closed_ok"]
 
@@ -81,6 +81,9 @@ def predicates(ins, impl, premature):
                 st["early"] = True
         if ev == "cancel":
             st["cancelled"] = True
+            # effective: the server side was waiting in the hello phase (pending or ready) when the user cancelled
+            if st.get("prevS") in ("8", "11"):
+                st["cancelEff"] = True
         if ev == "delS" and st["qcs"]:
             if st["qcs"][0].startswith("hello"):
                 st["helloSeen"] = True
@@ -97,11 +100,14 @@ def predicates(ins, impl, premature):
             st["qsc"] = []
         if sd["S"][1].get("ws") == "1":
             st["qcs"] = []
+        st["prevS"] = sd["S"][1].get("st")
         paired, auto = cfg["envS"][0] == "1", cfg["envS"][1] == "1"
         if st["setupC"] > 1 or st["setupS"] > 1:
             fail("SetupRemoteDevice was called more than once on one side")
         elif not paired and not auto and not st["approved"] and (st["setupC"] or st["setupS"] or sd["C"][1].get("st") == "38" or sd["S"][1].get("st") == "38"):
             fail("the server neither trusts the client nor auto-accepts and the user did not approve, yet a side completed / set up the remote device")
+        elif st.get("cancelEff") and (sd["C"][1].get("st") == "38" or sd["S"][1].get("st") == "38" or st["setupC"] or st["setupS"]):
+            fail("the user cancelled while the server side was waiting in the hello phase, yet a side completed / set up the remote device afterwards")
         elif (cfg["relC"] == "m" and sd["C"][1].get("st") == "38") or (cfg["relS"] == "m" and sd["S"][1].get("st") == "38"):
             fail("a side that has another SHIP id stored for its peer completed")
         elif (premature == 0 and cfg["envS"][2] == "1" and not st["cancelled"] and sd["S"][1].get("st") in ("14", "15")
